@@ -19,6 +19,7 @@ def run(prog: Program, rep: Report, tier: str) -> None:
     rep.rule('C04-D1', 'totality on empty sequences: torch.stack/cat of a list, [i] on a list built in the function, fixed-arity unpacking of a set/list and zip(*comprehension) are reached only when a dominating guard (a test on len(...) or on a counter asserted equal to it, or an early return on the empty operand list propagated through same-length comprehensions to the callee) excludes the empty case')
     rep.rule('C04-D2', 'assignment covers the rule: the dict passed as `asst` to FGGDerivation(...) receives a value for every node of rule.rhs.nodes() that has none yet (the reader derive() subscripts it with every rhs node)')
     rep.rule('C04-D3', 'pointer order contract: the producer indexes the einsum by edge.nodes for the edges of rule.rhs.edges() in iteration order, unfiltered; the consumer walks rule.rhs.edges() x e.nodes in the same nesting and consumes the next pointer entry exactly when the node has no value yet; externals are the outputs on both sides')
+    rep.rule('C04-D5', 'component-local state: every name the per-SCC loop of viterbi() binds and reads (the trivial/iterated flag, x, x1, the pointer tables of the component) is bound on all paths of the same iteration before it is read, so nothing decided for one component leaks into the next (inner for-loops assumed to run at least once: kmax >= 1)')
     rep.rule('C04-D4', 'one back-pointer entry per rule index: F_viterbi appends to rhs_pointer[n] on every iteration of the rule loop (also for rules that contribute nothing), and records the rule index where the new rule is strictly better')
     rep.not_decided += ['optimality of the returned derivation', 'equality with the Viterbi-semiring sum-product', 'tie handling', 'convergence of the max-plus fixed-point iteration']
     stack_guards(rep, prog)
@@ -27,6 +28,13 @@ def run(prog: Program, rep: Report, tier: str) -> None:
     asst_coverage(rep, prog)
     pointer_order(rep, prog)
     pointer_entries(rep, prog)
+    # D5: the per-component loop of viterbi() decides trivial / iterated and collects x1, lp1, rp1 per component
+    from ..rules.loopstate import check_iteration_local
+    vf = prog.func('fggs.viterbi', 'viterbi')
+    n_state = 0
+    for l in [n for n in own_nodes(vf.node) if isinstance(n, ast.For) and any(isinstance(x, ast.Call) and callee_last(x) == 'scc' for x in ast.walk(n.iter))]:
+        n_state += check_iteration_local(rep, 'C04-D5 component-local state', vf, l)
+    rep.floor('C04-D5 component-local names', n_state, 4)
 
 
 # ------------------------------------------------------------------------------------------ D1
